@@ -78,12 +78,17 @@ impl Check for Comments {
         true
     }
     fn run(&self, c: &Case, ctx: &mut Ctx) -> Outcome {
-        let r = fmt::render(c, true);
+        let r = fmt::render_with(c, true, true);
         // the harness lexer must agree with what the generator inserted
         if fmt::lex_comments(&r.text) != r.comments.iter().map(|x| x.trim_end().to_string()).collect::<Vec<_>>() {
             fail!("harness:lexer-disagrees", "lexer finds {:?}, generator inserted {:?} in\n{}", fmt::lex_comments(&r.text), r.comments, r.text);
         }
         if fmt::parse_c(&r.text).is_err() {
+            if r.comment_kinds.iter().any(|k| k.starts_with("speculative:")) {
+                // a position the grammar under test does not admit: nothing to check
+                ctx.label("speculative-position-rejected-by-the-parser");
+                return Ok(());
+            }
             ctx.discard();
             return Ok(());
         }
